@@ -17,11 +17,11 @@ Section C15S.
     t + 3 * N.to_nat k + (if flt (nth i sizes f0) f0 then N.to_nat k else 0).
   Proof. exact random_grains_draws. Qed.
 
-  Theorem C15_composition_draws : forall tape sph (q : @query F) mn mx o comps mins maxs c old t i,
+  Theorem C15_composition_draws : forall tape sph (q : @query F) wt mn mx o comps mins maxs c old t i,
     in_range (ds_min mn) (ds_max mx) (q_depth q) = true ->
     in_range (dsl sph q mn) (dsl sph q mx) (q_depth q) = true ->
     find_idx comps c 0 = Some i ->
-    snd (comp_eval tape sph q (CRandom mn mx o comps mins maxs) c (old, t)) = S t.
+    snd (comp_eval tape sph q wt (CRandom mn mx o comps mins maxs) c (old, t)) = S t.
   Proof. exact random_composition_draws. Qed.
 
   (** two worlds built alike (same features, same tape) and queried alike agree *)
